@@ -193,6 +193,8 @@ CaseRec(lab, k, masks, variant, G, LL) ==
            binds   |-> [nm \in nms |-> [i \in DOMAIN BindTargets(G, IdOf(G, nm)) |-> G.files[BindTargets(G, IdOf(G, nm))[i]].name]],
            exports |-> [nm \in Names(G, UserEntries(G)) |->
                           {[alias |-> x.alias, file |-> G.files[x.file].name, name |-> x.name] : x \in ExportsOf(G, IdOf(G, nm))}],
+           \* what loading an entry point (user or dynamic) evaluates at once: its static closure
+           closure |-> [nm \in Names(G, LL.entries) |-> Names(G, Reach(SrcChildren(G), <<IdOf(G, nm)>>))],
            subsets |-> {[ entries |-> Names(G, S),
                           loaded  |-> Names(G, LoadedBy(G, S)),
                           c |-> [nm \in Names(G, LoadedBy(G, S)) |-> Counter(G, LoadedBy(G, S), IdOf(G, nm))] ]
